@@ -51,27 +51,29 @@ MS(e, A) == /\ (Strict => EnvOK(mon, e))
             /\ pan' = IF w'.panic # "" THEN {PanicKey(e)} ELSE {}
             /\ hist' = Append(hist, e)
 
-MCmdInclude      == "include" \in Cmds /\ \E p \in Peers : MS(E("include", p, NoMsg), CmdInclude(p))
-MCmdHousekeeping == "hk" \in Cmds /\ MS(E("hk", 0, NoMsg), CmdHousekeeping)
-MCmdBan          == "ban" \in Cmds /\ \E p \in Peers : MS(E("ban", p, NoMsg), CmdBan(p))
-MCmdDemote       == "demote" \in Cmds /\ \E p \in Peers : MS(E("demote", p, NoMsg), CmdDemote(p))
-MCmdStartSync    == "startsync" \in Cmds /\ ~w.isect /\ MS(E("startsync", 0, NoMsg), CmdStartSync)
-MCmdContinueSync == "contsync" \in Cmds /\ \E p \in Peers : MS(E("contsync", p, NoMsg), CmdContinueSync(p))
-MCmdRequestBlocks == "reqblocks" \in Cmds /\ w.bfq < MaxBfq /\ MS(E("reqblocks", 0, NoMsg), CmdRequestBlocks)
-MCmdFetchEb      == "fetcheb" \in Cmds /\ Len(w.lfq) < MaxLfq /\ \E p \in Peers : MS(E("fetcheb", p, NoMsg), CmdFetchEb(p))
-MCmdFetchEbTxs   == "fetchebtxs" \in Cmds /\ Len(w.lfq) < MaxLfq /\ \E p \in Peers : MS(E("fetchebtxs", p, NoMsg), CmdFetchEbTxs(p))
-MIoConnected     == "connected" \in Evs /\ \E p \in Peers : MS(E("connected", p, NoMsg), IoConnected(p))
-MIoDisconnected  == "disconnected" \in Evs /\ \E p \in Peers : MS(E("disconnected", p, NoMsg), IoDisconnected(p))
-MIoError         == "error" \in Evs /\ \E p \in Peers : MS(E("error", p, NoMsg), IoError(p))
-MIoSent          == "sent" \in Evs /\ \E p \in Peers, m \in Alphabet : MS(E("sent", p, m), IoSent(p, m))
-MIoRecv          == "recv" \in Evs /\ \E p \in Peers, m \in Alphabet : MS(E("recv", p, m), IoRecv(p, m))
+\* schedules have at most MaxDepth events: states at that depth get no successors (TLC level = events + 1)
+Open == TLCGet("level") <= MaxDepth
+
+MCmdInclude      == Open /\ "include" \in Cmds /\ \E p \in Peers : MS(E("include", p, NoMsg), CmdInclude(p))
+MCmdHousekeeping == Open /\ "hk" \in Cmds /\ MS(E("hk", 0, NoMsg), CmdHousekeeping)
+MCmdBan          == Open /\ "ban" \in Cmds /\ \E p \in Peers : MS(E("ban", p, NoMsg), CmdBan(p))
+MCmdDemote       == Open /\ "demote" \in Cmds /\ \E p \in Peers : MS(E("demote", p, NoMsg), CmdDemote(p))
+MCmdStartSync    == Open /\ "startsync" \in Cmds /\ ~w.isect /\ MS(E("startsync", 0, NoMsg), CmdStartSync)
+MCmdContinueSync == Open /\ "contsync" \in Cmds /\ \E p \in Peers : MS(E("contsync", p, NoMsg), CmdContinueSync(p))
+MCmdRequestBlocks == Open /\ "reqblocks" \in Cmds /\ w.bfq < MaxBfq /\ MS(E("reqblocks", 0, NoMsg), CmdRequestBlocks)
+MCmdFetchEb      == Open /\ "fetcheb" \in Cmds /\ Len(w.lfq) < MaxLfq /\ \E p \in Peers : MS(E("fetcheb", p, NoMsg), CmdFetchEb(p))
+MCmdFetchEbTxs   == Open /\ "fetchebtxs" \in Cmds /\ Len(w.lfq) < MaxLfq /\ \E p \in Peers : MS(E("fetchebtxs", p, NoMsg), CmdFetchEbTxs(p))
+MIoConnected     == Open /\ "connected" \in Evs /\ \E p \in Peers : MS(E("connected", p, NoMsg), IoConnected(p))
+MIoDisconnected  == Open /\ "disconnected" \in Evs /\ \E p \in Peers : MS(E("disconnected", p, NoMsg), IoDisconnected(p))
+MIoError         == Open /\ "error" \in Evs /\ \E p \in Peers : MS(E("error", p, NoMsg), IoError(p))
+MIoSent          == Open /\ "sent" \in Evs /\ \E p \in Peers, m \in Alphabet : MS(E("sent", p, m), IoSent(p, m))
+MIoRecv          == Open /\ "recv" \in Evs /\ \E p \in Peers, m \in Alphabet : MS(E("recv", p, m), IoRecv(p, m))
 
 MNext == \/ MCmdInclude \/ MCmdHousekeeping \/ MCmdBan \/ MCmdDemote \/ MCmdStartSync \/ MCmdContinueSync
          \/ MCmdRequestBlocks \/ MCmdFetchEb \/ MCmdFetchEbTxs
          \/ MIoConnected \/ MIoDisconnected \/ MIoError \/ MIoSent \/ MIoRecv
 
-Bound == /\ TLCGet("level") <= MaxDepth
-         /\ \A p \in Peers : Len(mon.unconf[p]) <= MaxInflight /\ mon.outst[p] <= 2
+Bound == /\ \A p \in Peers : Len(mon.unconf[p]) <= MaxInflight /\ mon.outst[p] <= 2
 
 -----------------------------------------------------------------------------
 (* invariants *)
@@ -98,8 +100,15 @@ LagOnly ==
 (* schedule printing (ACTION_CONSTRAINT; always TRUE).  Registers: 1 = cover  *)
 (* classes seen, 2 = violation classes seen (per TLC worker).                 *)
 OutSig(out) == [i \in DOMAIN out |-> <<out[i].t, out[i].m.proto, out[i].m.kind, out[i].k>>]
-PeerSig(W, p) == IF p \in DOMAIN W.peers THEN <<W.peers[p].conn, W.peers[p].tag, W.peers[p].viol>> ELSE <<"-">>
-CoverClass == <<ev'.ev, ev'.m.proto, ev'.m.kind, OutSig(w'.out), PeerSig(w, ev'.p), PeerSig(w', ev'.p)>>
+\* cover class of a step: event kind, outputs, and the situation of the peer it names (connection, tag,
+\* violation flag, set membership, ever banned) before and after; for housekeeping the situations of all peers
+PeerSig(W, p) == IF p \in DOMAIN W.peers
+                 THEN <<W.peers[p].conn, W.peers[p].tag, W.peers[p].viol, p \in W.cold, p \in W.warm, p \in W.hot,
+                        p \in W.banned, p \in pp.everBanned>>
+                 ELSE <<"-">>
+HkSig(W) == {PeerSig(W, p) : p \in DOMAIN W.peers}
+CoverClass == <<ev'.ev, ev'.m.proto, ev'.m.kind, OutSig(w'.out), PeerSig(w, ev'.p), PeerSig(w', ev'.p),
+                IF ev'.ev = "hk" THEN HkSig(w) ELSE {}>>
 Findings == <<bad', pbad', pan'>>
 
 ASSUME TLCSet(1, {}) /\ TLCSet(2, {})
